@@ -86,6 +86,13 @@ Theorem c19_custody : forall ops d, forallb op_wf ops = true -> run_clean rinit 
 Proof. exact custody_clean. Qed.
 Print Assumptions c19_custody.
 
+(* class C19-F3 delimited by inputs: a program step cannot overdraw when the owners' balances are
+   non-negative and add up to at most the recorded total (DepositedAmount / TokenMintedAmount) and
+   4 * owners * available <= 10^18 (so: below about 2.5 * 10^17 / owners base units) *)
+Theorem c19_program_safe : forall now e x, ext_safe e x = true -> kf_C19_3 now e x = false.
+Proof. exact ext_safe_no_overdraw. Qed.
+Print Assumptions c19_program_safe.
+
 (* known finding C19-F2: a swap-fee gauge holding 500 whose fee transfer fails pays the 500 at every
    epoch; after two epochs the account holds 500 against remainders of 1500 *)
 Theorem c19_custody_swapfee_refuted : exists ops d, forallb op_wf ops = true /\ run_clean rinit ops = false /\
@@ -206,3 +213,11 @@ Example c19_swapfee_example :
                (mkGauge 500 10 4 1 true 0 86400 true 1)
   = Ok (mkGauge 41 509 5 1 true 0 86400 true 1, 8541, [(1, 166); (2, 333)]).
 Proof. vm_compute. reflexivity. Qed.
+
+(* a safe program step: 3 owners of 100, 200, 300 out of 600, 1000 available over 2 remaining days *)
+Example c19_program_example :
+  let x := mkExt 0 3 1000 true 2 0 50 1 in
+  let e := mkXenv 600 [(11, 100, 0); (12, 200, 0); (13, 300, 0)] in
+  ext_safe e x = true /\
+  ext_tick 100 e 5000 x = Ok (mkExt 0 3 501 true 2 1 86500 1, 4501, [(11, 83); (12, 166); (13, 250)]).
+Proof. vm_compute. split; reflexivity. Qed.
